@@ -91,6 +91,12 @@ func (fx *fixture) taint(s string) {
 	fx.mu.Unlock()
 }
 
+func (fx *fixture) taintedSoFar() string {
+	fx.mu.Lock()
+	defer fx.mu.Unlock()
+	return fx.tainted
+}
+
 // health endpoint of backend h (1-based)
 func (fx *fixture) serveHealth(h int, w http.ResponseWriter, r *http.Request) {
 	a := &arrival{h: h, at: time.Now(), release: make(chan struct{})}
